@@ -446,9 +446,16 @@ def no_inplace_in_products(model: Model, R: RuleResult) -> int:
                         bad = node
                 if isinstance(node, ast.Call) and isinstance(node.func, ast.Attribute) and node.func.attr in INPLACE_METHODS:
                     root = node.func.value
-                    while isinstance(root, (ast.Subscript, ast.Attribute)):
-                        root = root.value
+                    while isinstance(root, (ast.Subscript, ast.Attribute)) or (isinstance(root, ast.Call) and isinstance(root.func, ast.Attribute)
+                                                                             and root.func.attr in ("view", "reshape", "squeeze", "unsqueeze", "transpose", "contiguous", "detach")):
+                        if isinstance(root, ast.Call):
+                            root = root.func.value
+                        else:
+                            root = root.value
                     if isinstance(root, ast.Name) and foreign(root.id):
+                        bad = node
+                    # the receiver is itself the result of an operand's product: `self.a._mv(x).add_(..)`
+                    if isinstance(root, ast.Call) and isinstance(root.func, ast.Attribute) and root.func.attr in prod:
                         bad = node
                 if isinstance(node, ast.Assign) and any(isinstance(t, ast.Subscript) and isinstance(t.value, ast.Name) and foreign(t.value.id) for t in node.targets):
                     bad = node
